@@ -172,6 +172,20 @@ namespace
 
 std::unique_ptr<std::map<std::string, std::string>> option_help;
 
+// The exit status must reflect whether the command's output was
+// actually accepted by standard output, not just whether the command
+// thought it had succeeded.
+int exit_status(bool command_succeeded)
+{
+  std::cout.flush();
+  if (!std::cout)
+    {
+      std::cerr << "error: failed to write to standard output\n";
+      return 1;
+    }
+  return command_succeeded ? 0 : 1;
+}
+
 std::unique_ptr<std::map<std::string, std::string>> make_option_help()
 {
   const std::map<std::string, std::string>
@@ -304,7 +318,7 @@ int main (int argc, char *argv[])
 	case OPT_HELP:
 	  {
 	    DFS::CommandHelp help;
-	    return help.invoke(storage, ctx, extra_args) ? 0 : 1;
+	    return exit_status(help.invoke(storage, ctx, extra_args));
 	  }
 	}
     }
@@ -330,7 +344,7 @@ int main (int argc, char *argv[])
 	{
 	  storage.show_drive_configuration(std::cerr);
 	}
-      return instance->invoke(storage, ctx, extra_args) ? 0 : 1;
+      return exit_status(instance->invoke(storage, ctx, extra_args));
     }
   catch (std::exception& e)
     {
